@@ -55,6 +55,13 @@ ASSUMPTIONS = [
     "copy/pickle and dns.immutable.constify are checked by the direct oracle only (not modelled)",
 ]
 
+# Singleton types, pinned here independently of dns.rdatatype._singletons (the table under test):
+# CNAME 5 (RFC 1034 3.6.2, RFC 2181 10.1: at most one CNAME at a name), SOA 6 (RFC 1035 / RFC 2181 6.1: one per zone apex),
+# NXT 30 (RFC 2535 5.1: one NXT per name), DNAME 39 (RFC 6672 2.4: at most one DNAME at a name), NSEC 47 (RFC 4035 2.3:
+# one NSEC per owner name).  This is the list of the pinned tree's documentation of is_singleton().
+SINGLETONS = frozenset({5, 6, 30, 39, 47})
+SIG_TYPES = frozenset({24, 46})  # SIG, RRSIG: the types whose records carry a covered type (RFC 2535 4.1, RFC 4034 3.1)
+
 TTLS = [0, 1, 5, 60, 300, 3600, 2 ** 31 - 1, 2 ** 31, 2 ** 32 - 1]
 
 
@@ -92,6 +99,9 @@ def pools():
     P["SIG"] = [rd_text("IN", "SIG", sig.format(t_)) for t_ in ("A", "NS", "TYPE0", "A")]
     P["SIG"][3] = rd_text("IN", "SIG", sig.format("A").replace("12345", "12346"))
     P["CHTXT"] = [rd_text("CH", "TXT", x) for x in ('"a"', '"b"')]
+    P["DNAME"] = [rd_text("IN", "DNAME", x) for x in ("a.example.", "A.EXAMPLE.", "b.example.", "c.example.")]
+    P["NSEC"] = [rd_text("IN", "NSEC", x) for x in ("a.example. A NS", "b.example. A NS", "a.example. A MX", "c.example. TXT")]
+    P["NXT"] = [dns.rdata.GenericRdata(1, 30, bytes([1, x, 0x40])) for x in (97, 98, 99, 100)]  # no typed class: generic records
     for lab in ("A", "MX", "TXT", "CNAME", "SOA", "RRSIG"):
         # the same records through other object routes (GenericRdata twins, re-parsed and subclass instances)
         P[lab] = P[lab] + other_routes(P[lab][0]) + other_routes(P[lab][1])[:1] + other_routes(P[lab][2])[-1:]
@@ -100,7 +110,7 @@ def pools():
 
 
 POOL_META = {  # label -> (rdclass, rdtype)
-    "A": (1, 1), "MX": (1, 15), "TXT": (1, 16), "CNAME": (1, 5), "SOA": (1, 6), "RRSIG": (1, 46), "SIG": (1, 24), "CHTXT": (3, 16),
+    "A": (1, 1), "MX": (1, 15), "TXT": (1, 16), "CNAME": (1, 5), "SOA": (1, 6), "RRSIG": (1, 46), "SIG": (1, 24), "CHTXT": (3, 16), "DNAME": (1, 39), "NSEC": (1, 47), "NXT": (1, 30),
 }
 
 
@@ -447,7 +457,7 @@ RDS_OPS = ["add", "add", "add", "add", "ttl", "rm", "disc", "pop", "clear", "del
 
 def gen_rds_script(rng):
     P = pools()
-    main = rng.choice(["A", "A", "MX", "MX", "TXT", "CNAME", "SOA", "RRSIG", "RRSIG", "SIG"])
+    main = rng.choice(["A", "A", "MX", "MX", "TXT", "CNAME", "SOA", "RRSIG", "RRSIG", "SIG", "DNAME", "NSEC", "NXT"])
     others = [main, main, main, main, rng.choice(list(P))]
     script = []
     flavor = rng.choice(["rds", "rds", "rrset", "mixed"])
@@ -541,7 +551,7 @@ def run_rds_script(ctx, case, rep):
     regs = [dns.rdataset.Rdataset(1, 1, 0, 0) for _ in range(4)]
     ghost = [[0] for _ in range(4)]  # TTLs merged since the register was last found empty by a merge
     trace = []
-    singletons = {int(x) for x in dns.rdatatype._singletons}
+    singletons = SINGLETONS
 
     def is_imm(r):
         return isinstance(regs[r], dns.rdataset.ImmutableRdataset)
@@ -936,6 +946,16 @@ def eval_immut(ctx, rep):
     for k, cls, member, ok, detail in bad[:20]:
         ctx.fail(f"C07/immutability/{k}/{cls}/{member}", f"immutability surface: {k} {cls}.{member} {detail}", rep)
     ctx.count("immut.entries", len(ex.probe()))
+    import dns.immutable
+    import dns.rdatatype
+    # the singleton table against the pinned list (never read from the implementation)
+    for t_ in list(range(0, 300)) + [32768, 32769, 65280, 65535]:
+        try:
+            got_ = bool(dns.rdatatype.is_singleton(dns.rdatatype.RdataType.make(t_)))
+        except Exception as e:
+            got_ = repr(e)
+        if got_ != (t_ in SINGLETONS):
+            ctx.fail(f"C07/rdatatype/is_singleton/{t_}", f"is_singleton({dns.rdatatype.to_text(t_)}) is {got_}, the pinned RFC list says {t_ in SINGLETONS}", rep)
     # dns.immutable.constify (anchored; exported as dns.rdata._constify): every mutable container, at every depth,
     # becomes its immutable carrier with the same content, and the argument is not aliased
     import dns.immutable
@@ -1314,7 +1334,7 @@ def eval_rdsapi(ctx, c, rep):
     lab, idxs, ttl = c["label"], c["idx"], c["ttl"]
     rds_ = [P[lab][i] for i in idxs]
     cls_, typ_ = POOL_META[lab]
-    singleton = typ_ in {int(x) for x in dns.rdatatype._singletons}
+    singleton = typ_ in SINGLETONS
     same_cov = typ_ not in (24, 46) or len({int(r.covers()) for r in rds_}) <= 1
     exp_keys = []
     for r in rds_:
@@ -1454,7 +1474,7 @@ def generate(ctx: Ctx, scale, rng):
         eval_case(ctx, c)
     P = pools()
     for _ in range(n(300)):
-        lab = rng.choice(["A", "MX", "TXT", "CNAME", "SOA", "RRSIG", "RRSIG", "SIG", "CHTXT"])
+        lab = rng.choice(["A", "MX", "TXT", "CNAME", "SOA", "RRSIG", "RRSIG", "SIG", "CHTXT", "DNAME", "NSEC", "NXT"])
         c = {"kind": "rdsapi", "label": lab, "idx": [rng.below(len(P[lab])) for _ in range(rng.range(1, 5))],
              "ttl": rng.choice(TTLS), "deleting": rng.choice([None, None, 254, 255, 0])}
         ctx.case(("rdsapi", str(c)), sample=c)
